@@ -799,8 +799,6 @@ def run_pedigree_cli(ctx):
             l = by_name[rec["locus"]]
             mdl = rec["model"]
             samples = rec["samples"]
-            if samples != columns:
-                raise Violation("cli_pedigree", "sample order handed to the sampler %r differs from the output columns %r" % (samples, columns), step=0)
             n = len(samples)
             pos = {s: i for i, s in enumerate(samples)}
             where = "locus %s" % rec["locus"]
